@@ -317,7 +317,7 @@ theorem AA.run_norm (a : AA) (ds : List Nat) :
 
 /-! ### Wasserstein object: the first linear solve of a distance computation sets the solver up -/
 
-theorem WObj.solve_norm (b : Bool) (w : WObj) (data n : Nat) :
+theorem WObj.solve_norm (b : Nat) (w : WObj) (data n : Nat) :
     (w.norm.solve b data 0 n).2 = (w.solve b data 0 n).2 := by
   simp [WObj.solve, WObj.linearSolve, WObj.norm]
 
